@@ -54,7 +54,6 @@ INFO = {
 
 USERS = ('u1', 'u2')
 FLAGS = ('REQUESTED', 'FRIEND', 'TRANSFER')
-BEHAVIOURS = ('exists', 'notexists', 'silent')
 STATES = ('UNTRACKED', 'TRACKED', 'RETRY_PENDING')
 LOSS_HOW = ('close', 'abort', 'reset')
 BASE = 1.0
@@ -80,6 +79,12 @@ def _step(rng, slow):
 def _trigger(rng, users, prev_id, with_loss):
     r = rng.random()
     user = rng.choice(users)
+    if prev_id is not None and rng.random() < 0.12:
+        # right behind the previous call (same task step when inline)
+        on = {'ev': 'call', 'id': prev_id, 'k': rng.randint(0, 2)}
+        if rng.random() < 0.5:
+            on['inline'] = True
+        return on
     if with_loss and r < 0.25:
         on = {'ev': 'closing'}
     elif r < 0.55:
@@ -138,18 +143,14 @@ def generate(rng, index, tier):
             add(user, op, flag, at=now)
 
     if pattern:
+        # "... untrack(last remaining flag) -> track", the track on a trigger; <= 4 + 3 + 1 calls
         user = rng.choice(users)
-        prefix = rng.randint(0, max(total - 3, 0))
+        prefix = rng.randint(0, min(4, max(total - 3, 0)))
         for _ in range(prefix):
             random_call()
         held = sorted(fold.get(user))
         rng.shuffle(held)
-        room = total - len(calls) - 1
-        if not held or len(held) > room:
-            # start from a known single reason
-            for f in held:
-                now += rng.choice([0.0, 0.001, 1.0])
-                add(user, 'untrack', f, at=now)
+        if not held:
             f = rng.choice(FLAGS)
             now += _step(rng, slow) if calls else 0.0
             add(user, 'track', f, at=now)
@@ -177,6 +178,9 @@ def generate(rng, index, tier):
             loss = {'how': how, 'at': round(base_t + rng.choice([0.0, 0.001, 0.004, 0.5, 5.0, 11.0]), 4)}
         elif r < 0.7:
             loss = {'how': how, 'on': {'ev': 'call', 'id': target['id'], 'k': rng.randint(0, 4)}}
+            if rng.random() < 0.4:
+                # the instants an attempt sent by this call is given up / retried
+                loss['on']['delay'] = rng.choice([10.0, 10.0, 20.0, 30.0])
         elif r < 0.85:
             loss = {'how': how, 'on': {'ev': rng.choice(('add', 'add', 'remove')), 'user': rng.choice(users),
                                        'nth': rng.randint(1, 3), 'k': rng.randint(0, 4)}}
@@ -189,7 +193,7 @@ def generate(rng, index, tier):
         if rng.random() < 0.5:
             # a call long after the loss: nothing of the old session may swallow it
             probe = {'id': len(calls), 'user': rng.choice(users), 'op': 'track', 'flag': rng.choice(FLAGS),
-                     'on': {'ev': 'closed', 'delay': 30.0}}
+                     'on': {'ev': 'closing', 'delay': 30.0}}
             if len(calls) >= 8:
                 probe['id'] = calls[-1]['id']
                 calls[-1] = probe
@@ -235,6 +239,14 @@ def corpus(tier):
     out.append(_plan([_c('u1', T, R, 0.0), _c('u1', U, R, 5.0)], {'u1': ['silent']}))
     out.append(_plan([_c('u1', T, R, 0.0), _c('u1', U, R, 300.0)], {'u1': ['notexists']}))
     out.append(_plan([_c('u1', T, R, 0.0), _c('u1', U, R, 5.0), _c('u1', T, F, 6.0)], {'u1': ['silent', 'silent']}))
+    # 1b. bursts in one instant: calls queued behind each other before the worker wakes up
+    out.append(_plan([_c('u1', T, R, 0.0), _c('u1', U, R, 2.0), _c('u1', T, F, 2.0)]))
+    out.append(_plan([_c('u1', T, R, 0.0), _c('u1', U, R, 2.0), _c('u1', U, R, 2.0)]))
+    out.append(_plan([_c('u1', T, R, 0.0), _c('u1', T, F, 0.0), _c('u1', U, R, 2.0), _c('u1', U, F, 2.0),
+                      _c('u1', U, X, 2.0), _c('u1', U, R, 2.0)]))
+    out.append(_plan([_c('u1', T, R, 0.0), _c('u1', U, R, 0.0), _c('u1', T, R, 0.0), _c('u1', U, R, 0.0),
+                      _c('u1', T, F, 0.0), _c('u1', U, F, 5.0), _c('u1', U, F, 5.0), _c('u1', T, X, 5.0)],
+                     {'u1': ['silent', 'exists', 'notexists']}))
     # 2. the pattern "untrack(last flag) -> track", second call on a trigger, k swept (complete)
     for inline in (False, True):
         for k in PATTERN_KS:
@@ -263,6 +275,12 @@ def corpus(tier):
             out.append(_plan([_c('u1', T, R, 0.0), _c('u1', U, R, on=trig)], {'u1': ['silent']}))
             out.append(_plan([_c('u1', T, R, 0.0), _c('u1', U, R, on=trig), _c('u1', T, F, on=trig)],
                              {'u1': ['silent', 'exists']}))
+            for b2 in ('exists', 'silent'):
+                # untrack + track from one callback in the instant the retry is due
+                t1 = dict(trig, inline=True)
+                out.append(_plan([_c('u1', T, R, 0.0), _c('u1', U, R, on=t1),
+                                  _c('u1', T, F, on={'ev': 'call', 'id': 1, 'k': 0, 'inline': True})],
+                                 {'u1': ['silent', b2]}))
     # 4. server loss: while tracked, while a retry is pending, with calls in the instant the client notices
     for how in LOSS_HOW:
         out.append(_plan([_c('u1', T, R, 0.0)], loss={'how': how, 'at': 5.0}))
@@ -280,7 +298,7 @@ def corpus(tier):
                              loss={'how': how, 'on': {'ev': 'call', 'id': 1, 'k': k}}))
     # 5. the link dies (both ends at once) k iterations around a frame the worker is sending: at a retry,
     #    at an untrack, at a first track; a call long after the loss must still count
-    late = {'ev': 'closed', 'delay': 30.0}
+    late = {'ev': 'closing', 'delay': 30.0}
     for k in range(0, 7):
         out.append(_plan([_c('u1', T, R, 0.0)], {'u1': ['silent']},
                          loss={'how': 'reset', 'on': {'ev': 'state', 'user': 'u1', 'state': 'RETRY_PENDING',
@@ -289,6 +307,13 @@ def corpus(tier):
                          loss={'how': 'reset', 'on': {'ev': 'call', 'id': 1, 'k': k}}))
         out.append(_plan([_c('u1', T, R, 5.0), _c('u1', T, F, on=late)],
                          loss={'how': 'reset', 'on': {'ev': 'call', 'id': 0, 'k': k}}))
+    # 6. the link dies in the instant an unanswered attempt is given up, with calls queued behind that attempt
+    #    (issued 5 s before the loss: they belong to the old session and must be dropped with it)
+    for k in range(0, 7):
+        for queued in ([_c('u1', U, R, 5.0), _c('u1', T, F, 5.0)], [_c('u1', U, R, 5.0)],
+                       [_c('u1', U, R, 5.0), _c('u1', T, R, 5.0), _c('u1', U, R, 6.0), _c('u1', T, F, 7.0)]):
+            out.append(_plan([_c('u1', T, R, 0.0)] + queued, {'u1': ['silent']},
+                             loss={'how': 'reset', 'on': {'ev': 'call', 'id': 0, 'delay': 10.0, 'k': k}}))
     return out
 
 
@@ -625,6 +650,10 @@ def _run(world: World, plan):
                 deadline = max(deadline, a['t'] + model.retry_delay(a['behaviour']) + model.RETRY_SLACK + 1.0)
         if loss:
             deadline = max(deadline, loss['server'] + 2 * (model.WAIT_ANSWER + model.RETRY_SILENT) + 2.0)
+            # without a connection no frame shows the worker's progress: every call issued since the loss
+            # may cost one unanswered attempt (10 s) before the next queued call is looked at
+            n_post = len([r for r in issue_log if r['t'] >= loss['server'] - model.EPS])
+            deadline = max(deadline, stats['last_issue'] + (model.WAIT_ANSWER + 1.0) * (n_post + 1))
         return deadline
 
     async def main():
@@ -679,12 +708,26 @@ def _run(world: World, plan):
             final_state=client.users.get_tracking_state(u).name,
             events=[(t, s) for (t, s, _) in state_events[u]])
         for invariant, facts in res['violations']:
+            if loss and invariant != 'C15.after_loss':
+                facts = dict(facts, loss=True)
+            elif invariant == 'C15.after_loss' and loop.exc_contexts:
+                facts = dict(facts, loop_exc=loop.exc_contexts[0].get('exc_type'))
             world.violate(invariant, **facts)
         if res['retries']:
             nontrivial = True
             world.probe('retry_seen', res['retries'])
         if res['truncated']:
             world.probe('frames_cut_off_by_loss')
+        # the pattern of interest: a triggered track right behind the untrack that emptied the set
+        flags = frozenset()
+        emptied = False
+        for r in ucalls:
+            if r['op'] == 'track' and r['how'] in ('state', 'remove') and emptied and not flags:
+                world.probe('pattern_untrack_last_then_track')
+                world.probe('pattern_k%s%s' % (r['k'], '_inline' if r['inline'] else ''))
+            new_flags = model.apply(flags, r['op'], r['flag'])
+            emptied = bool(flags) and not new_flags
+            flags = new_flags
         # a call issued while an attempt was in flight
         for r in ucalls:
             for f in frames[u]:
